@@ -98,9 +98,6 @@ func c14entries(format string, readR func(io.Reader) string) []c14entry {
 	}
 	for _, d := range c14diskEntries(format) {
 		d := d
-		if format == "ply" && d.name != "ply.Load" {
-			continue // the custom configuration keeps one attribute per property: not the class counted here
-		}
 		es = append(es, c14entry{d.name, func(b []byte) string {
 			return c14withTempFile(b, "."+format, func(p string) c14out {
 				o := d.load(p)
